@@ -598,6 +598,47 @@ def check_C01(tier):
     return chk.finish()
 
 
+def cycle_scenarios(chk):
+    """cycles reached from a command WITHOUT a result name (an EEMS 2.0 style PrintVars line; add_command(cls, None, ...)): scenario texts rather than
+    states of the engine model (the tracer identifies commands by result name), judged directly: the run ends in the recursive-model error"""
+    from collections import OrderedDict
+    from mpilot.program import Program
+
+    def api():
+        p = Program()
+        p.add_command(p.find_command_class("Copy"), "A", OrderedDict([("InFieldName", "B")]))
+        p.add_command(p.find_command_class("Copy"), "B", OrderedDict([("InFieldName", "A")]))
+        p.add_command(p.find_command_class("PrintVars"), None, OrderedDict([("InFieldNames", ["A"])]))
+        return p
+
+    scenarios = [
+        ("nameless-reader-eems2-style", lambda: Program.from_source("A = Copy(InFieldName = B)\nB = Copy(InFieldName = A)\nPrintVars(InFieldNames = [A])\n")),
+        ("nameless-reader-first", lambda: Program.from_source("PrintVars(InFieldNames = [A, B])\nA = Copy(InFieldName = B)\nB = Copy(InFieldName = A)\n")),
+        ("nameless-reader-api", api),
+        ("nameless-self-loop-free-reader-of-3-cycle", lambda: Program.from_source(
+            "A = Copy(InFieldName = B)\nB = Copy(InFieldName = C)\nC = Copy(InFieldName = A)\nPrintVars(InFieldNames = [C], OutFileName = shown.txt)\n", working_dir=core.scratch_dir("mpv-cyc-"))),
+    ]
+    for name, build in scenarios:
+        chk.cov["evaluations"] += 1
+        try:
+            p = build()
+        except BaseException as e:
+            chk.finding("C14:scenario:LoadError:%s" % name, "the cyclic program could not be built: %s: %s" % (type(e).__name__, e), {"scenario": name})
+            continue
+        for call in (1, 2):
+            try:
+                p.run()
+                verdict, detail = "C14.ReturnedOk", "run() returned"
+            except BaseException as e:
+                cls = type(e).__name__
+                cause = type(getattr(e, "exc", None)).__name__ if getattr(e, "exc", None) is not None else ""
+                verdict = "ok" if cls == "RecursiveModelStructure" else "C14.StackOverflow" if "RecursionError" in (cls, cause) else "C14.WrongError"
+                detail = "%s%s: %s" % (cls, "(%s)" % cause if cause else "", str(e)[:200])
+            if verdict != "ok":
+                chk.finding("C14:scenario:%s:%s" % (verdict, name), "cycle read by a command without a result name, run() call %d: %s" % (call, detail), {"scenario": name, "call": call})
+                break
+
+
 def check_C14(tier):
     chk = core.Check("C14", tier)
     core.sut()
@@ -620,6 +661,7 @@ def check_C14(tier):
     from . import engine_big
 
     engine_big.check(chk, "C14", tier, cyclic=True)
+    cycle_scenarios(chk)
     # ... and over the real commands: a cycle closed through every result parameter of every built-in command (MPValidate.InitCycles)
     from . import validate as V
     from . import decl
